@@ -207,7 +207,7 @@ impl Check for NftConsecutive {
         if tier == Tier::Quick {
             800
         } else {
-            30000
+            12000
         }
     }
     fn components(&self) -> serde_json::Value {
